@@ -18,7 +18,7 @@ RULE = (
     "Hypothesis streams of 0..6 messages of mixed corpus types and values (incl. empty messages, messages carrying "
     "fields unknown to the reader: reader schema = writer's, an older variant with a generated subset of fields "
     "deleted, or a variant declaring such fields with an incompatible wire type; a minority of bodies crossing the "
-    "1/2/3-byte length-prefix boundaries) written with dump(stream, SIZE_DELIMITED); for each stream EVERY cut point "
+    "1/2/3-byte length-prefix boundaries) written with dump(stream, SIZE_DELIMITED) and read from a BytesIO, an object offering read() only, or a BufferedReader with a buffer of 8 / 16 / 64 / 4096 bytes; for each stream EVERY cut point "
     "0..len(stream) is enumerated (streams longer than 600 bytes: every cut within 16 bytes of a frame boundary plus a "
     "stride of ~300 cuts through the bodies). "
     "Oracle, intact stream: successive load(stream, SIZE_DELIMITED) return the written sequence, stream.tell() after "
@@ -89,9 +89,16 @@ def targets(ctx):
             return self._s.tell()
 
     def read_all(items, data, stop_on_raise=True, only_read=False):
-        """-> list of ('ok', msg, tell) / ('raise', exc)"""
-        s = OnlyRead(data) if only_read else BytesIO(data)
-        if only_read:
+        """-> list of ('ok', msg, tell) / ('raise', exc); only_read: False | True (read()-only object) | int (a
+        BufferedReader with that buffer size, as open(path, 'rb') gives: it also offers peek(), and its buffer ends
+        wherever it ends - inside a varint, a tag, a payload)"""
+        import io
+
+        if only_read is not True and only_read:
+            s = io.BufferedReader(io.BytesIO(data), buffer_size=int(only_read))
+        else:
+            s = OnlyRead(data) if only_read else BytesIO(data)
+        if only_read is True:
             s_tell = s.tell_for_harness
         else:
             s_tell = s.tell
@@ -139,7 +146,7 @@ def targets(ctx):
                 fails.append(Failure("reference_rejects_stream", f"reference_rejects_stream|{kinds}", f"frame {i}: {e}"))
                 break
         # intact read
-        only_read = bool(case.get("only_read"))
+        only_read = case.get("buffered") or bool(case.get("only_read"))
         res = read_all(items, data, only_read=only_read)
         for i, (it, r) in enumerate(zip(items, res)):
             what = ("empty" if not it["tree"] else "nonempty") + ("_older" if it.get("drop") else "")
@@ -185,11 +192,11 @@ def targets(ctx):
                     if sig not in seen:
                         seen.add(sig)
                         fails.append(Failure(clause, sig, f"cut={cut}/{len(data)} frame {i} (frame bytes {offsets[i]}..{offsets[i + 1]}) returned a message; want {want!r:.160}",
-                                             case={"msgs": items, "only_cut": cut, **({"only_read": True} if only_read else {})}))
+                                             case={"msgs": items, "only_cut": cut, **({"only_read": True} if only_read is True else ({"buffered": only_read} if only_read else {}))}))
                     break
         multi = len(items) >= 2 and any((not it["tree"]) or it.get("drop") for it in items)
         labs = [f"n_msgs:{len(items)}", f"kinds:{kinds}", f"stream_len:{min(len(data) // 50 * 50, 400)}"]
-        labs.append("stream:" + ("read_only_object" if only_read else "BytesIO"))
+        labs.append("stream:" + ("read_only_object" if only_read is True else (f"BufferedReader({only_read})" if only_read else "BytesIO")))
         if any(it.get("sized_then_filled") for it in items):
             labs.append("instance_sized_before_filled_in_place")
         return Eval(fails, weight=1 + len(data), nontrivial_count=n_inside + (1 if multi else 0), labels=labs)
@@ -236,6 +243,7 @@ def targets(ctx):
     ] + ([{"msg": "Repeats", "tree": {"r_fixed64": [7] * 2050}}] if ctx.thorough else []) + [
         {"msg": "Repeats", "tree": {"r_leaf": [{"i": 1}] * 40, "r_string": ["ab"] * 30}, "drop": [18]},
     ])
-    strat = st.tuples(st.lists(st.one_of(item(), item(), item(), item(), item(), big_item), min_size=0, max_size=6), st.booleans()).map(
-        lambda t: {"msgs": t[0], **({"only_read": True} if t[1] else {})})
+    strat = st.tuples(st.lists(st.one_of(item(), item(), item(), item(), item(), big_item), min_size=0, max_size=6),
+                      st.sampled_from([None, None, "only_read", 8, 16, 64, 4096])).map(
+        lambda t: {"msgs": t[0], **({"only_read": True} if t[1] == "only_read" else ({"buffered": t[1]} if t[1] else {}))})
     return [Target("delimited_streams_all_cuts", ev, strategy=strat, quick=120, thorough=1500, time_quick=80)]
